@@ -22,6 +22,7 @@ import VaxisModel.Model.KeyBody
 import VaxisModel.Lemmas.KeyBodyPin
 import VaxisModel.Lemmas.GoInterp
 import VaxisModel.Lemmas.KeyBodyEvalString
+import VaxisModel.Lemmas.KeyBodyEvalDecode
 
 namespace VaxisModel.Props.C09Body
 open VaxisModel.Model.GoBody VaxisModel.Model.GoInterp VaxisModel.Model.Key VaxisModel.Model.KeyBody
@@ -78,5 +79,38 @@ theorem string_body_eq_model (u : Uni) (k : Key) : keyStringGen u k = some (keyS
 
 example : keyStringGen VaxisModel.Props.C09Body.exUni { keycode := 97, mods := 5 } = some [67, 116, 114, 108, 43, 83, 104, 105, 102, 116, 43, 97] := by
   rw [string_body_eq_model]; decide +kernel
+
+/-- **decodeKey_body_eq_model.** Running the body of `decodeKey` as extracted from key.go on this run
+    (the type switch over the five sequence kinds, the C0 / SS3 case tables, the three nested
+    `for … range` loops over the CSI sub-parameters with the `specialsKeys` map, the Shift-text
+    work-around) gives, for every `unicode` oracle and every parsed sequence, exactly the hand-written
+    `Model.Key.decodeKey`.  `seqIsRune`: the payload of an `ansi.C0` / `ansi.SS3` is a Go `rune`
+    (`type C0 rune`), i.e. fixed by the conversion `rune(seq)` the body applies; it is `True` for the
+    other three kinds (CSI parameters are arbitrary `int`s, the model wraps them with `toRune` as the
+    code does). -/
+theorem decodeKey_body_eq_model (u : Uni) (s : Seq) (h : VaxisModel.Lemmas.KeyBodyEval.seqIsRune s) :
+    decodeKeyGen u s = some (decodeKey u s) :=
+  VaxisModel.Lemmas.KeyBodyEval.decodeKey_body_eq u s h
+
+theorem decodeKey_body_eq_model_print (u : Uni) (g : Str) : decodeKeyGen u (.print g) = some (decodeKey u (.print g)) :=
+  decodeKey_body_eq_model u _ trivial
+theorem decodeKey_body_eq_model_esc (u : Uni) (f : Int) : decodeKeyGen u (.esc f) = some (decodeKey u (.esc f)) :=
+  decodeKey_body_eq_model u _ trivial
+theorem decodeKey_body_eq_model_csi (u : Uni) (params : List (List Int)) (f : Int) :
+    decodeKeyGen u (.csi params f) = some (decodeKey u (.csi params f)) :=
+  decodeKey_body_eq_model u _ trivial
+theorem decodeKey_body_eq_model_c0 (u : Uni) (b : Int) (h0 : -2147483648 ≤ b) (h1 : b < 2147483648) :
+    decodeKeyGen u (.c0 b) = some (decodeKey u (.c0 b)) :=
+  decodeKey_body_eq_model u _ (by show toRune b = b; unfold toRune; omega)
+theorem decodeKey_body_eq_model_ss3 (u : Uni) (b : Int) (h0 : -2147483648 ≤ b) (h1 : b < 2147483648) :
+    decodeKeyGen u (.ss3 b) = some (decodeKey u (.ss3 b)) :=
+  decodeKey_body_eq_model u _ (by show toRune b = b; unfold toRune; omega)
+
+example : VaxisModel.Lemmas.KeyBodyEval.seqIsRune (.c0 13) := by show toRune 13 = 13; decide
+example : decodeKeyGen VaxisModel.Props.C09Body.exUni (.csi [[97, 65], [6, 2]] 117) =
+    some { keycode := 97, shifted := 65, mods := 5, event := 1 } := by decide +kernel
+/-- outside the `rune` range a `Seq.c0 b` is not a Go value: the body's `rune(seq)` wraps, the hand model does not -/
+example : decodeKeyGen VaxisModel.Props.C09Body.exUni (.c0 4294967304) ≠ some (decodeKey VaxisModel.Props.C09Body.exUni (.c0 4294967304)) := by
+  decide +kernel
 
 end VaxisModel.Props.C09Body
